@@ -79,7 +79,37 @@ def make_tamper(alter, plan, state: dict):
     """Returns tamper(conn, msg idx, data) for the GKDI connection(s)."""
     kind = alter[0]
 
+    def adv_response(conn, pdu):
+        adv_world = W.World(0)
+        adv_world.clock = conn.world.clock
+        adv = refdc.RefDC(adv_world, [adv_root_key(plan["root_keys"][0])], caller_sids={SID} if alter[1] == "seed" else set())
+        op = plan["ops"][-1]
+        if op["op"] == "protect":
+            hr, env = adv.answer(dtyp.target_sd(SID), None, -1, -1, -1, {})
+        else:
+            hr, env = adv.answer(dtyp.target_sd(SID), None, *op["blob"]["pos"], {})
+        return rpce.build_response(rpce.ndr64_getkey_response(env, hr), ctx_id=0, call_id=pdu["call_id"] if pdu else 1)
+
     def tamper(conn, idx, data):
+        if kind == "mitm-handshake":
+            # the adversary removes the security trailer from the server's handshake PDUs (auth_len 0), so that the client's
+            # security context is never fed the server's token, and answers whatever follows with its own cleartext Response
+            if conn.port == 135 or len(data) < 16:
+                return None
+            if data[2] in (rpce.BIND_ACK, rpce.ALTER_CONTEXT_RESP):
+                p = rpce.parse_pdu(data)
+                if p["auth"] is None:
+                    return None
+                state["applied"] = True
+                return rpce.build_bind_ack(p["results"], ptype=p["ptype"], flags=p["flags"], sec_addr=p["sec_addr"], max_xmit=p["max_xmit"],
+                                           max_recv=p["max_recv"], assoc=p["assoc"], auth=None, call_id=p["call_id"])
+            if state.get("applied") and data[2] in (rpce.RESPONSE, rpce.FAULT):
+                try:
+                    p = rpce.parse_pdu(data)
+                except Exception:  # noqa: BLE001
+                    p = None
+                return adv_response(conn, p)
+            return None
         if conn.port == 135 or len(data) < 24 or data[2] != rpce.RESPONSE:
             return None
         state["seen"] = state.get("seen", 0) + 1
@@ -196,7 +226,7 @@ def run(case) -> dict:
     adv_rk = adv_root_key(plan["root_keys"][0])
 
     def V(cond, detail):
-        what = alter[0] + ("-" + str(alter[1]) if alter[0] in ("strip", "lenfix") else "")
+        what = alter[0] + ("-" + str(alter[1]) if alter[0] in ("strip", "lenfix", "mitm-handshake") else "")
         return common.violation("C16", what, fl, cond, opname, "",
                                 f"{detail}; alteration={alter} ctx={ctxname} op={opname} outcome={out.brief()} {out.exc!r}")
 
@@ -242,13 +272,14 @@ class C16(common.Check):
             "and a well-formed cleartext reply with adversary seed keys / public key substituted (also: zeroed signature, auth level NONE); "
             "every single-bit flip of the authentic reply (all bits for StubCtx and NTLM in thorough; strided in quick); frag_len / auth_len / "
             "pad_length / alloc_hint / auth level / auth type rewritten to {0,1,true+-1,true+-16,0xFFFF}; sealed stub substituted; sealed reply "
-            "of an earlier connection replayed. Non-trivial = every case (each alters the reply); distinct = distinct tuple.")
+            "of an earlier connection replayed; handshake man-in-the-middle (security trailers removed from bind_ack / alter_context_resp, every "
+            "later server PDU replaced by the adversary's cleartext Response). Non-trivial = every case (each alters the reply); distinct = distinct tuple.")
     components = {"client": "real (public API, RPC client, AuthenticationProvider)", "security context": "real pyspnego NTLM / Negotiate->NTLM (initiator and acceptor) and StubCtx (stub)",
                   "DC": "model (RefDC)", "adversary": "simulator component on the reply path, no access to the session key",
                   "transport / entropy / clock": "simulated"}
     assumptions = ["outcome-based: a correct client may reject earlier or later or tolerate a change in an unprotected field, as long as the result equals the authentic one",
                    "pyspnego NTLM signs data_readonly buffers too, so 'header signing off' is only observable with StubCtx"]
-    required_fired = ("alter_strip", "alter_flip", "alter_lenfix", "alter_subst", "alter_replay", "rejected")
+    required_fired = ("alter_strip", "alter_flip", "alter_lenfix", "alter_subst", "alter_replay", "alter_mitm-handshake", "rejected")
 
     def exhaustive(self, tier):
         return tier == "thorough"
@@ -267,6 +298,8 @@ class C16(common.Check):
                         for mode in ("plain", "zero-sig", "level-none"):
                             out.append([ctxname, "p256", opname, fl, ["strip", kind, mode]])
                     out.append([ctxname, "p256", opname, fl, ["replay"]])
+                    for kind in ("seed", "pub"):
+                        out.append([ctxname, "p256", opname, fl, ["mitm-handshake", kind]])
                     for s in range(3):
                         out.append([ctxname, "p256", opname, fl, ["subst", s]])
                     base = baseline(ctxname, "p256", opname, fl)
